@@ -301,7 +301,7 @@ DT_SEPARATORS = ["-", ".", "/", ":", " ", "%", ","]
 def gen_datetime(ctx, rng, kind):
     cells, flags = [], []
     date_tokens = rng.choice([["DD", "MM", "YYYY"], ["YYYY", "MM", "DD"], ["MM", "DD", "YYYY"], ["DD", "MM", "YY"], ["YY", "MM", "DD"], ["MM", "YYYY"], ["DD", "MM"], ["YYYY"], []])
-    time_tokens = rng.choice([[], [], ["hh", "mm", "ss"], ["hh", "mm"], ["ss", "mm", "hh"]])
+    time_tokens = rng.choice([[], [], ["hh", "mm", "ss"], ["hh", "mm"], ["ss", "mm", "hh"], ["mm", "ss"], ["mm", "hh"], ["mm"]])
     if not date_tokens and not time_tokens:
         date_tokens = ["DD", "MM", "YYYY"]
     dsep = rng.choice(DT_SEPARATORS)
@@ -311,7 +311,9 @@ def gen_datetime(ctx, rng, kind):
         parts.append((dsep if rng.random() < 0.9 else "").join(date_tokens))
     if time_tokens:
         parts.append(tsep.join(time_tokens))
-    rule = rng.choice([" ", "  ", ", ", "-"]).join(parts) if len(parts) == 2 else parts[0]
+    if len(parts) == 2 and rng.random() < 0.2:
+        parts.reverse()  # time before date
+    rule = rng.choice([" ", "  ", ", ", "-", ""]).join(parts) if len(parts) == 2 else parts[0]
     layout = F.parse_layout(rule)
     tokens = date_tokens + time_tokens
 
